@@ -4,3 +4,4 @@ import Iodata.Model.Rd.Sdf
 import Iodata.Model.Rd.Mol2
 import Iodata.Model.Rd.Pdb
 import Iodata.Model.Rd.Cube
+import Iodata.Model.Rd.Gro
